@@ -161,7 +161,7 @@ def run(ck: Check, repo: Repo) -> None:
         for x in n.walk():
             if isinstance(x, ast.BinOp) and isinstance(x.op, ast.Pow) and "gamma" in ast.unparse(x.left):
                 pows.append((n, x))
-    ck.floor("C10.2", len(pows), 1, "gamma ** k in the window loop")
+    ck.floor("C10.2", len(pows), 1, "gamma ** k in the window loop", fn=info)
     start, slice_lo, counter = _enumerate_shape(loop.ast, cfg, loop)
     for n, x in pows:
         e = tb.term(x.right, n)
@@ -348,7 +348,7 @@ def _alignment(ck: Check, repo: Repo, add: Fn, window: str) -> None:
     stores = [cfg.node_of(c) for c in calls_in(add.node) if call_name(c) in ("super().add",) or
               (isinstance(c.func, ast.Attribute) and c.func.attr == "add" and isinstance(c.func.value, ast.Call) and call_name(c.func.value) == "super")]
     stores = [s for s in stores if s is not None]
-    ck.floor("C10.5", len(stores), 1, "store of the fused transition (super().add) in MultiStepReplayBuffer.add")
+    ck.floor("C10.5", len(stores), 1, "store of the fused transition (super().add) in MultiStepReplayBuffer.add", fn=add)
     rets = [n for n in cfg.live_nodes() if n.kind == "stmt" and isinstance(n.ast, ast.Return)]
     implicit_none = [p for p in cfg.exit.pred if not (p.kind == "stmt" and isinstance(p.ast, ast.Return))]
     for r in rets:
@@ -382,7 +382,7 @@ def _alignment(ck: Check, repo: Repo, add: Fn, window: str) -> None:
     tr = repo.fn("agilerl.training.train_off_policy", "train_off_policy")
     tcfg = CFG(tr.node)
     nadds = [c for c in calls_in(tr.node) if call_name(c) == "n_step_memory.add"]
-    ck.floor("C10.5", len(nadds), 1, "n_step_memory.add call in train_off_policy")
+    ck.floor("C10.5", len(nadds), 1, "n_step_memory.add call in train_off_policy", fn=tr)
     for c in nadds:
         n = tcfg.node_of(c)
         res = [k for k, _ in tcfg.defs_at(n)]
@@ -407,7 +407,7 @@ def _alignment(ck: Check, repo: Repo, add: Fn, window: str) -> None:
                 excl = any((not pol) and "n_step_memory is not None" in ast.unparse(g) or (pol and "n_step_memory is None" in ast.unparse(g)) for g, pol, _ in gs)
                 ck.ob("C10.5", tr, cc, excl, "the raw transition goes to the main memory only when no n-step buffer is used")
     ns = [c for c in calls_in(tr.node) if call_name(c) == "n_step_sampler.sample"]
-    ck.floor("C10.5", len(ns), 4, "n_step_sampler.sample calls in train_off_policy")
+    ck.floor("C10.5", len(ns), 4, "n_step_sampler.sample calls in train_off_policy", fn=tr)
     for c in ns:
         n = tcfg.node_of(c)
         a = c.args[0] if c.args else None
